@@ -107,8 +107,10 @@ def expected_conf(ctx, line):
         return -10.0
     cmap = {c: k for k, c in enumerate(line.characters)}
     idx = np.asarray([cmap[c] for c in line.transcription])
+    # the oracle evaluates a FRESH line object carrying the same logits, so that nothing cached on the long-lived line can leak into it
+    fresh = ctx.layout.TextLine(logits=line.logits, characters=line.characters)
     try:
-        return float(np.mean(ctx.ce.get_line_confidence(line, idx)))
+        return float(np.mean(ctx.ce.get_line_confidence(fresh, idx)))
     except ValueError:
         return 0.5
 
